@@ -26,6 +26,21 @@ CHECKS["C02"] = dict(
          "float(int) exact only for |z|<=2^53; Decimal/date fields, StructureReference, EnumString not yet in the model.",
     technique="Coq proof (structural induction over field declarations) + model/implementation correspondence in vm_compute")
 
+CHECKS["C19"] = dict(
+    text="PARTIAL. Coq theorems (Props/C19.v, closed under the global context) over a store model with sharing: for every "
+         "operation whose effect summary is copy-only, the call leaves every caller-reachable object unchanged and no later "
+         "sequence of client mutations of arguments or results changes the instance's abstract state (induction over action "
+         "and mutation lists); a constructed witness per unsafe effect kind. The effect kind of each copy/alias site is "
+         "regenerated from the AST of /repo on every run (Gen/AliasSites.v); the effect observed on the real implementation "
+         "(deep snapshots of all arguments, mutation of every returned/argument container, instance/class fingerprints) is "
+         "compared in Coq with the effect predicted from the generated sites, and the property's clauses are evaluated on "
+         "the observations. The proof covers the aliasing logic; the generated sites and the differential cover the code.",
+    design="DESIGN.md §6 C19, §12",
+    note="Trusted: Coq kernel + vm_compute; site recognisers in harness/aliasgen.py (fail closed to UnknownEff); store model "
+         "Struct/Alias.v; harness snapshots/fingerprints; CPython. Untyped Array/Map/Anything content is outside the claim.",
+    technique="Coq proof (noninterference over a store model, induction over mutation histories) + generated effect sites + "
+              "model/implementation correspondence in vm_compute")
+
 PENDING = {}
 
 def main():
@@ -48,7 +63,7 @@ def main():
                 "technique": c["technique"],
             })
         else:
-            na.append({"property_id": pid, "reason": PENDING.get(pid, "check not built yet in this round; see DESIGN.md §10 build order")})
+            na.append({"property_id": pid, "reason": PENDING.get(pid, "check still being built in this round (builder in progress); see DESIGN.md §10 build order")})
     m = {
         "version": 1,
         "setup_cmd": "./vcheck setup",
